@@ -92,6 +92,16 @@ def f_twolines(rng, W, ctx):
                 phrases=[[a[rng.randrange(3)], b[rng.randrange(2)]]])
 
 
+def f_oddspace(rng, W, ctx):
+    """Characters that str.splitlines() treats as line boundaries although
+    they are not line ends of the LaTeX file (NEL, LINE/PARAGRAPH SEPARATOR)."""
+    a, b = W.words(2), W.words(2)
+    chars = ['\x85'] if 'ж' not in W.vows_all else ['\x85', '\u2028', '\u2029']
+    c1, c2 = rng.choice(chars), rng.choice(chars)
+    s = '%s%s %s %s%s %s.\n' % (a[0], c1, a[1], c2, b[0], b[1])
+    return frag('oddspace', s, a + b)
+
+
 def f_indent(rng, W, ctx):
     a, b = W.words(2), W.words(2)
     s = '   ' + _sent(a) + '\n\t' + _sent(b) + '\n'
@@ -390,7 +400,7 @@ def f_selectlanguage(rng, W, ctx):
 
 GENERATORS = {
     'plain': f_plain, 'longline': f_longline, 'indent': f_indent,
-    'twolines': f_twolines,
+    'twolines': f_twolines, 'oddspace': f_oddspace,
     'blank': f_blank, 'textbf': f_textbf, 'nested': f_nested,
     'unknown_macro': f_unknown_macro, 'group': f_group,
     'newcommand': f_newcommand, 'newcommand_opt': f_newcommand_opt,
